@@ -454,3 +454,117 @@ func TestVerifC17(t *testing.T) {
 			}()
 		}})
 }
+
+// ---------------------------------------------------------------------------------------------
+// C14 (sibling): Close of the sweeping provider (and of the buffered wrapper) in the middle of its work
+
+type hangSender struct {
+	spSender
+	hang bool
+}
+
+func (s *hangSender) SendMessage(ctx context.Context, p peer.ID, m *pb.Message) error {
+	if s.hang {
+		<-ctx.Done()
+		return ctx.Err()
+	}
+	return s.spSender.SendMessage(ctx, p, m)
+}
+
+func runC14p(c *vu.Case) {
+	a := map[string]string{}
+	for _, f := range strings.Fields(c.In[0]) {
+		if i := strings.IndexByte(f, '='); i > 0 {
+			a[f[:i]] = f[i+1:]
+		}
+	}
+	addr, _ := ma.NewMultiaddr("/ip4/8.8.8.8/tcp/4001")
+	hs := &hangSender{spSender: spSender{self: spPeer(1000000), addr: addr, fails: map[int]bool{}}}
+	router := &spRouter{k: 3}
+	for i := 0; i < 12; i++ {
+		router.swarm = append(router.swarm, spPeer(i))
+	}
+	ds := dssync.MutexWrap(datastore.NewMapDatastore())
+	ks, err := keystore.NewKeystore(namespace.Wrap(ds, datastore.NewKey("verif-keystore")))
+	if err != nil {
+		panic(err)
+	}
+	prov, err := provider.New(provider.WithPeerID(hs.self), provider.WithRouter(router), provider.WithMessageSender(hs),
+		provider.WithSelfAddrs(func() []ma.Multiaddr { return []ma.Multiaddr{addr} }), provider.WithReplicationFactor(3),
+		provider.WithReprovideInterval(time.Hour), provider.WithKeystore(ks), provider.WithDatastore(ds))
+	if err != nil {
+		panic(err)
+	}
+	var api provAPI = prov
+	if a["buffered"] == "1" {
+		api = buffered.New(prov, namespace.Wrap(ds, datastore.NewKey("verif-buffered")))
+	}
+	synctest.Wait()
+	_ = api.StartProviding(false, spKey(0), spKey(1), spKey(2), spKey(5))
+	time.Sleep(time.Second)
+	synctest.Wait()
+	switch a["when"] {
+	case "midcycle":
+		time.Sleep(20 * time.Minute)
+	case "sending":
+		hs.hang = true
+		_ = api.StartProviding(true, spKey(3), spKey(6))
+		time.Sleep(time.Second)
+	case "offline":
+		router.mu.Lock()
+		router.offline = true
+		router.mu.Unlock()
+		_ = api.StartProviding(true, spKey(3))
+		time.Sleep(90 * time.Second)
+	}
+	synctest.Wait()
+	closed := make(chan struct{}, 2)
+	n := 1
+	if a["twice"] == "1" {
+		n = 2
+	}
+	for i := 0; i < n; i++ {
+		go func() { _ = api.Close(); closed <- struct{}{} }()
+	}
+	synctest.Wait()
+	time.Sleep(2 * time.Minute)
+	synctest.Wait()
+	nclosed := 0
+	for {
+		select {
+		case <-closed:
+			nclosed++
+			continue
+		default:
+		}
+		break
+	}
+	err2 := api.Close()
+	_ = prov.Close()
+	// operations after Close are refused, not stuck
+	_ = api.StartProviding(false, spKey(7))
+	_ = ks.Close()
+	synctest.Wait()
+	c.Out = append(c.Out, fmt.Sprintf("returned=1/1 closed=%d/%d again=%v", nclosed, n, err2 == nil))
+}
+
+func TestVerifC14p(t *testing.T) {
+	vu.Run(t, vu.Config{Prop: "C14p", QuickN: 48, ThoroughN: 1000,
+		Gen: func(r *vu.RNG, c *vu.Case) bool {
+			c.In = append(c.In, fmt.Sprintf("life buffered=%d when=%s twice=%d", r.Intn(2), []string{"idle", "midcycle", "sending", "offline"}[r.Intn(4)], r.Intn(2)))
+			c.Tag("nontrivial")
+			return true
+		}, Exec: func(c *vu.Case) {
+			func() {
+				defer func() {
+					if r := recover(); r != nil {
+						for len(c.Out) < len(c.In) {
+							c.Out = append(c.Out, "-")
+						}
+						c.Out[len(c.Out)-1] += " |BUBBLE:" + strings.ReplaceAll(fmt.Sprint(r), " ", "_")
+					}
+				}()
+				synctest.Test(c.T, func(t *testing.T) { runC14p(c) })
+			}()
+		}})
+}
